@@ -247,6 +247,14 @@ def run(ck, m):
     if hand:
         ck.ob("R5", hand[0], rc[0].lineno < hand[0].lineno, "the pending seek must be reset only after the frame was rendered with it", stmt="_iterate: reset after render")
 
+    # the public `loop` attribute is a progress *report*: _iterate counts in a local and only writes the attribute. Reading it back inside the loops makes
+    # a consumer's write to `.loop` (documented as having no effect) cut the iteration short or extend it
+    rd_loop = [x for lp_ in body_walk(itf) if isinstance(lp_, (ast.While, ast.For)) for x in ast.walk(lp_)
+               if isinstance(x, ast.Attribute) and norm(x) == "self.loop" and isinstance(x.ctx, ast.Load)]
+    aug_loop = [x for x in body_walk(itf) if isinstance(x, ast.AugAssign) and norm(x.target) == "self.loop"]
+    ck.ob("R3", enclosing_stmt((rd_loop + aug_loop)[0]) if (rd_loop or aug_loop) else itf, not rd_loop and not aug_loop,
+          "_iterate reads the public `loop` attribute back while iterating: the number of loops left then depends on whatever a consumer stores there (documented: \"modifying this doesn't affect the iterator\")",
+          stmt="_iterate: the loop countdown is a local; self.loop is write-only inside the loops")
     rule_padded_size_maintained(ck, m, "R6")
 
     # ---- R8: who may write which state cell of the iterator (confirmed by reading; one line of reason each) ------------------
